@@ -50,7 +50,14 @@ SRC_TIE = {
            "source on every run and proved against the model (buffer state machine; textbook first difference, nothing read past the terminators).",
     "C04": " SOURCE TIE BY PROOF: every member function of MemoryLeakDetectorList and MemoryLeakDetectorTable (23 functions, the prev/cur unlink walks "
            "included) is regenerated from MemoryLeakDetector.cpp on every run by tools/cxx2heap.py (clang AST -> Gallina over an object heap) and proved to "
-           "implement the model's bucket / table functions on the heap representation (41 of the theorems); MemoryLeakDetector itself stays model + correspondence.",
+           "implement the model's bucket / table functions on the heap representation (41 of the theorems). MemoryLeakDetector's own allocMemory / "
+           "deallocMemory / reallocMemory / invalidateMemory / deallocAllMemoryInCurrentAllocationStage with storeLeakInformation, checkForCorruption, "
+           "matchingAllocation, the size arithmetic and MemoryLeakDetectorNode::init are translated too (gen/Gen_HeapC04D.v: user memory as an opaque address, "
+           "the allocators / the platform realloc / the guard check as oracle streams whose answers are recorded in events, sizeof measured by the compiler) "
+           "and proved to implement d_store / d_dealloc / d_realloc_failed on the heap (table embedded in the detector object), to report a release "
+           "exactly as the C06 model's check does (mismatch first, then corruption, at most one report), to give back whatever was obtained and leave the "
+           "table as it was on every path that returns NULL, and to stamp a reallocated block with a new number and the current period (27 more theorems). "
+           "The byte-level guard loops are tied in C06; the wrappers in MemoryLeakWarningPlugin.cpp and TestHarness_c.cpp stay model + correspondence.",
     "C06": " SOURCE TIE BY PROOF: the two guard-byte loops (addMemoryCorruptionInformation, validMemoryCorruptionInformation) are regenerated from the source "
            "on every run (tools/cxx2gal.py) and proved equal to the model's pattern / valid_guard.",
     "C13": " SOURCE TIE BY PROOF: StrLen, StrCmp, StrNCmp, MemCmp, StrNCpy, StrStr, AtoU, AtoI and the methods size, isEmpty, at, contains, startsWith, endsWith, "
